@@ -339,3 +339,175 @@ def _c13_predicates(rep, t, x, case, tag, completed):
 def _dec(s):
     from fractions import Fraction
     return Fraction(s)
+
+
+# ------------------------------------------------------------------------------------------------
+# C01 / C02 : call provenance through Pipe.step + box / feasibility predicates on observed calls
+
+def pipe_extract(t):
+    hdr = t["hdr"]
+    ev = t["events"]
+    steps, calls = [], []
+    last = {}          # site -> index into steps of the latest FILT step of that site
+    cons_tbl = {}
+    u0 = None
+    problems = []
+    for k, e in ev:
+        if k == "FILT":
+            if "U" not in e:
+                last[e["site"]] = None      # too large to replay (default-size ES population)
+                continue
+            steps.append({"t": "filt", "proj": e["proj"], "h": enc(e["sms"]), "U": enc_pts(e["U"]), "logX": enc_pts(e["logX"]), "picks": [],
+                          "_lo": e["lo"], "_hi": e["hi"], "_site": e["site"], "_out": e["out"]})
+            last[e["site"]] = len(steps) - 1
+            for p, v in (e.get("cons") or []):
+                cons_tbl[tuple(enc_pt(p))] = v
+        elif k == "CALL":
+            if "exc" in e and e.get("x") is None:
+                continue
+            c = {"u": enc_pt(e["u"]), "x": enc_pt(e["x"]), "ginv": enc_pt(e.get("ginv", e["x"])), "_e": e}
+            calls.append(c)
+            if u0 is None:
+                u0 = e["u"]
+                continue
+            ph = e["phase"]
+            if not e["rec"]:
+                steps.append({"t": "revisit", "u": enc_pt(e["u"])})
+            elif ph in ("init", "search", "poll"):
+                si = last.get(ph)
+                if si is None:
+                    problems.append(f"call #{e['k']} in phase {ph} without a preceding filtered set")
+                    steps.append({"t": "revisit", "u": enc_pt(e["u"])})
+                else:
+                    steps[si]["picks"].append(enc_pt(e["u"]))
+                    # calls appended to an earlier step: keep evaluation order by splitting the step
+                    if si != len(steps) - 1:
+                        # a later step was inserted in between (ES-internal filter calls never are; polls interleave
+                        # GP-only work) - re-emit as a fresh step with the same inputs so that order is preserved
+                        st = dict(steps[si])
+                        st["picks"] = [steps[si]["picks"].pop()]
+                        steps.append(st)
+                        last[ph] = len(steps) - 1
+            else:
+                problems.append(f"recorded call #{e['k']} in unexpected phase {ph}")
+                steps.append({"t": "revisit", "u": enc_pt(e["u"])})
+    return u0, steps, calls, cons_tbl, problems
+
+
+def pipe_replay(ctx, rep, pid):
+    traces = get_pool(ctx)
+    reqs, owners = [], []
+    for ti, t in enumerate(traces):
+        if not t["constructed"]:
+            continue
+        u0, steps, calls, cons_tbl, problems = pipe_extract(t)
+        if u0 is None:
+            continue
+        hdr = t["hdr"]
+        req = {"cmd": "pipe.run",
+               "env": {"lb": [enc(v) for v in hdr["lb"]], "ub": [enc(v) for v in hdr["ub"]], "origLo": [enc(v) for v in hdr["orig_lb"]],
+                       "origHi": [enc(v) for v in hdr["orig_ub"]], "tol": enc(hdr["tol_mesh"])},
+               "u0": enc_pt(u0),
+               "steps": [{k: v for k, v in s.items() if not k.startswith("_")} for s in steps],
+               "calls": [{k: v for k, v in c.items() if not k.startswith("_")} for c in calls]}
+        if t["spec"]["cons"]:
+            req["cons"] = [{"p": list(p), "v": v} for p, v in cons_tbl.items()]
+        if t["final"].get("x") is not None and t["final"].get("x_ginv") is not None:
+            req["calls"].append({"u": enc_pt(t["final"]["u"]), "x": enc_pt(t["final"]["x"]), "ginv": enc_pt(t["final"]["x_ginv"])})
+        reqs.append(req)
+        owners.append((ti, steps, calls, problems))
+    res = ctx.driver.call_many(reqs)
+    stats = {"runs": 0, "calls": 0, "filter_steps": 0, "revisits": 0, "clamped_calls": 0, "on_bound_calls": 0, "log_coord_calls": 0,
+             "cons_runs": 0, "infeasible_candidates_dropped": 0}
+    samples = []
+    for (ti, steps, calls, problems), r in zip(owners, res):
+        t = traces[ti]
+        sp = t["spec"]
+        tag = spec_tag(sp)
+        case = {"kind": "pipe_run", "spec": sp}
+        stats["runs"] += 1
+        hdr = t["hdr"]
+        stats["cons_runs"] += bool(sp["cons"])
+        for pr in problems:
+            rep.disagree("Pipe.step ~ call provenance", f"{pr}; {tag}", case)
+        # correspondence: search-box bounds, provenance, evaluated sequence
+        okc = True
+        for s, info in zip(steps, r["steps"]):
+            if s["t"] == "filt":
+                stats["filter_steps"] += 1
+                if [enc(v) for v in s["_lo"]] != info["lo"] or [enc(v) for v in s["_hi"]] != info["hi"]:
+                    rep.disagree("Mesh.searchLo/searchHi ~ _update_search_bounds_", f"site {s['_site']}: model bounds {info['lo']},{info['hi']} observed {s['_lo']},{s['_hi']}; {tag}", case)
+                    okc = False
+                    break
+                if not info["found"]:
+                    if pid == "C01":
+                        rep.disagree("Pipe.step ~ call provenance", f"a point evaluated in phase {s['_site']} is not a row of the model's filtered set; {tag}", case)
+                    okc = False
+                    break
+                stats["infeasible_candidates_dropped"] += max(0, len(s["U"]) - info["nOut"]) if sp["cons"] else 0
+            else:
+                stats["revisits"] += 1
+                if not info["found"]:
+                    rep.disagree("Pipe.step ~ call provenance", f"an unrecorded evaluation revisits a point that was never evaluated; {tag}", case)
+                    okc = False
+                    break
+        if okc:
+            obs = [c["u"] for c in calls]
+            if r["evals"] != obs:
+                rep.disagree("Pipe.run ~ sequence of evaluated points", f"model evaluates {len(r['evals'])} points, run {len(obs)} (first difference at "
+                             f"{next((i for i, (a, b) in enumerate(zip(r['evals'], obs)) if a != b), min(len(obs), len(r['evals'])))}); {tag}", case)
+        # predicates on observed calls
+        ncalls = len(calls)
+        for i, cr in enumerate(r["calls"]):
+            what = f"target call #{i}" if i < ncalls else "returned solution"
+            if i < ncalls:
+                stats["calls"] += 1
+                e = calls[i]["_e"]
+                if e.get("ginv") is not None and e["ginv"] != e["x"]:
+                    stats["clamped_calls"] += 1
+                if any(a == b for a, b in zip(e["x"], hdr["orig_lb"])) or any(a == b for a, b in zip(e["x"], hdr["orig_ub"])):
+                    stats["on_bound_calls"] += 1
+                stats["log_coord_calls"] += any(hdr["log"])
+            if pid == "C01":
+                if not cr["x_in"]:
+                    rep.violation("orig_box", "variables_transformer.py:inverse_transf", f"{what}: original-space point outside the hard bounds; {tag}", case)
+                    break
+                if not cr["u_in"]:
+                    rep.violation("internal_box", "bads.py:candidate filtering", f"{what}: internal point outside the transformed box; {tag}", case)
+                    break
+                if not cr["x_eq"]:
+                    rep.disagree("Pipe.inverse ~ inverse_transf", f"{what}: x is not clamp(ginv(u)); {tag}", case)
+                    break
+        if pid == "C01":
+            # constraint function inputs and the logged pairs
+            for X, C, ph in t.get("cons_calls", []):
+                for row in X:
+                    if any(not (lo <= v <= hi) for v, lo, hi in zip(row, hdr["orig_lb"], hdr["orig_ub"])):
+                        rep.violation("orig_box_cons", "constraints_check.py:non_box_cons input", f"constraint function called outside the hard bounds in phase {ph}; {tag}", case)
+                        break
+            lg = t["log"]
+            if lg and lg["X"]:
+                byu = {}
+                for c in calls:
+                    byu.setdefault(tuple(c["u"]), c["x"])
+                for Xi, Xo in zip(lg["X"], lg["X_orig"]):
+                    want = byu.get(tuple(enc_pt(Xi)))
+                    if want is not None and want != enc_pt(Xo):
+                        rep.violation("log_pair", "function_logger.py:_record", f"logged original-space point is not the image of the logged internal point; {tag}", case)
+                        break
+                    if any(not (lo <= v <= hi) for v, lo, hi in zip(Xi, hdr["lb"], hdr["ub"])):
+                        rep.violation("internal_box", "function_logger.py:_record", f"logged internal point outside the transformed box; {tag}", case)
+                        break
+        if pid == "C02" and sp["cons"]:
+            bad = [i for i, v in enumerate(t["final"].get("cons_at_calls", [])) if v]
+            if bad:
+                rep.violation("infeasible_call", "bads.py:candidate filtering", f"target called at an infeasible point (call #{bad[0]} of {len(t['final']['cons_at_calls'])}); {tag}", case)
+            if t["final"].get("x") is not None and t["error"] is None:
+                from .. import gen as _g
+                _, _, _, _, _, _, cons_fn, _, _ = _g.build(sp)
+                import numpy as np
+                if float(np.asarray(cons_fn(np.array([t["final"]["x"]]))).reshape(-1)[0]) > 0:
+                    rep.violation("infeasible_result", "bads.py:optimize result", f"returned x violates the non-box constraint; {tag}", case)
+        if len(samples) < 2:
+            samples.append({"spec": sp, "n_steps": len(steps), "n_calls": len(calls), "first_steps": [{k: v for k, v in s.items() if not k.startswith("_") and k not in ("U", "logX")} for s in steps[:4]]})
+    return stats, samples
